@@ -177,3 +177,123 @@ def open_construct_input(o):
                                   for k in range(0, len(val), 6)]
     i = o['id']
     return u32(o['as']), o['hold'], (i[0] << 24) + (i[1] << 16) + (i[2] << 8) + i[3], cap
+
+
+# ----------------------------------------------------------------------------- multiprotocol families (C07)
+import ipaddress as _ipa
+
+
+def ip_any(o):
+    o = bytes(o)
+    return str(_ipa.ip_address(o)) if len(o) in (4, 16) else ''
+
+
+def prefix_any(p):
+    a = bytes(p['a'])
+    return '%s/%d' % (_ipa.ip_address(a), p['l'])
+
+
+def rd_text(rd):
+    t, o = rd[0], rd[1]
+    if t == 0:
+        return '%d:%d' % (o[0] * 256 + o[1], (o[2] << 24) + (o[3] << 16) + (o[4] << 8) + o[5])
+    if t == 1:
+        return '%d.%d.%d.%d:%d' % (o[0], o[1], o[2], o[3], o[4] * 256 + o[5])
+    return '%d:%d' % ((o[0] << 24) + (o[1] << 16) + (o[2] << 8) + o[3], o[4] * 256 + o[5])
+
+
+def mac_text(m):
+    return '-'.join('%02X' % x for x in m)
+
+
+def esi_value(e):
+    t = e[0]
+    v = bytes(e[1:])
+    if t == 0:
+        return {'type': 0, 'value': int.from_bytes(v, 'big')}
+    if t == 1:
+        return {'type': 1, 'value': {'ce_mac_addr': mac_text(v[0:6]), 'ce_port_key': int.from_bytes(v[6:8], 'big')}}
+    if t == 2:
+        return {'type': 2, 'value': {'rb_mac_addr': mac_text(v[0:6]), 'rb_priority': int.from_bytes(v[6:8], 'big')}}
+    if t == 3:
+        return {'type': 3, 'value': {'sys_mac_addr': mac_text(v[0:6]), 'ld_value': int.from_bytes(v[6:9], 'big')}}
+    if t == 4:
+        return {'type': 4, 'value': {'router_id': int.from_bytes(v[0:4], 'big'), 'ld_value': int.from_bytes(v[4:8], 'big')}}
+    return {'type': 5, 'value': {'as_num': int.from_bytes(v[0:4], 'big'), 'ld_value': int.from_bytes(v[4:8], 'big')}}
+
+
+def evpn_route(e):
+    t, v = e[0], e[1]
+    r = {'rd': rd_text(v['rd'])}
+    if 'esi' in v:
+        r['esi'] = esi_value(v['esi'])
+    if 'tag' in v:
+        r['eth_tag_id'] = u32(v['tag'])
+    if t == 1:
+        r['label'] = [v['label']]
+    if t == 2:
+        r['mac'] = mac_text(v['mac'])
+        r['label'] = list(v['labels'])
+    if v.get('ip'):
+        r['ip'] = ip_any(v['ip'])
+    return {'type': t, 'value': r}
+
+
+def fs_rule(rule):
+    out = {}
+    for c in rule:
+        t, payload = c[0], c[1]
+        if t in (1, 2):
+            out[t] = prefix4(payload)
+        else:
+            out[t] = '|'.join(o['op'] + str(int.from_bytes(bytes(o['v']), 'big')) for o in payload)
+    return out
+
+
+AFISAFI = {'ipv6': (2, 1), 'lu4': (1, 4), 'lu6': (2, 4), 'vpn4': (1, 128), 'vpn6': (2, 128), 'evpn': (25, 70), 'fs': (1, 133)}
+WITHDRAW_LABEL = 524288
+
+
+def mp_in_out(m):
+    """-> (attribute type 14 / 15, construct input value, expected parse output value)"""
+    fam, reach = m['fam'], m['reach']
+    afisafi = AFISAFI[fam]
+    routes_in, routes_out = [], []
+    for r in m['routes']:
+        if fam == 'ipv6':
+            x = prefix_any(r)
+            routes_in.append(x)
+            routes_out.append(x)
+        elif fam in ('lu4', 'lu6'):
+            x = {'prefix': prefix_any(r['p']), 'label': list(r['labels'])}
+            routes_in.append(x)
+            routes_out.append(x if reach else {'prefix': x['prefix'], 'label': [WITHDRAW_LABEL]})
+        elif fam in ('vpn4', 'vpn6'):
+            x = {'label': [r['label']], 'rd': rd_text(r['rd']), 'prefix': prefix_any(r['p'])}
+            routes_in.append(x)
+            routes_out.append(x if reach else dict(x, label=[WITHDRAW_LABEL]))
+        elif fam == 'evpn':
+            x = evpn_route(r)
+            routes_in.append(x)
+            routes_out.append(x)
+        else:
+            x = fs_rule(r)
+            routes_in.append(x)
+            routes_out.append(x)
+    nh = bytes(m['nh'])
+    if not reach:
+        key = 'withdraw'
+        return 15, {'afi_safi': afisafi, key: routes_in}, {'afi_safi': afisafi, key: routes_out}
+    if fam == 'ipv6':
+        nhv = {'nexthop': ip_any(nh[:16])}
+        if len(nh) == 32:
+            nhv['linklocal_nexthop'] = ip_any(nh[16:])
+    elif fam in ('vpn4', 'vpn6'):
+        nhv = {'nexthop': {'rd': '0:0', 'str': ip_any(nh[8:])}}
+    elif fam == 'fs':
+        nhv = {'nexthop': ip_any(nh)}
+    else:
+        nhv = {'nexthop': ip_any(nh)}
+    vin = dict(afi_safi=afisafi, nlri=routes_in, **nhv)
+    vout = dict(afi_safi=afisafi, nlri=routes_out, **nhv)
+    return 14, vin, vout
